@@ -75,6 +75,10 @@ func normalizedString(r RR) string {
 			if ttlEnd == 0 {
 				ttlEnd = i
 			}
+		case b[i] >= 'A' && b[i] <= 'Z' && esc:
+			// A letter behind a backslash is still a letter of the owner name.
+			b[i] += 32
+			esc = false
 		case b[i] >= 'A' && b[i] <= 'Z' && !esc:
 			b[i] += 32
 		default:
